@@ -1282,8 +1282,20 @@ fn check_spec_reserved_keys(key: &[u8], mut value: &[u8]) -> Result<(), Error> {
             #[cfg(feature = "rust-secp256k1")]
             <secp256k1::SecretKey as EnrKeyUnambiguous>::decode_public(&_pubkey_bytes)?;
         }
-        _ => return Ok(()),
+        b"ed25519" => {
+            // the decoder only accepts a byte string here
+            Bytes::decode(&mut value)?;
+        }
+        _ => {
+            // any other value must be a single well-formed RLP item
+            let header = Header::decode(&mut value)?;
+            value.advance(header.payload_length);
+        }
     };
+    // the value is exactly one RLP item: nothing may follow it
+    if !value.is_empty() {
+        return Err(Error::InvalidRlpData(DecoderError::UnexpectedLength));
+    }
     Ok(())
 }
 
